@@ -1,5 +1,7 @@
 import NV.Model.Reply
 import NV.Gen.Bounds
+import NV.Gen.MsgBounds
+import NV.Lemmas.ParserChecked
 import NV.Model.CFG
 import NV.Gen.ProxyCFG
 namespace NV.C02
@@ -342,5 +344,54 @@ theorem hostile_paths_return_capacity :
     (NV.Gen.ProxyCFG.all.all fun e => NV.CFG.check e.2.2.2.2 e.2.1 e.2.2.1 e.2.2.2.1) = true ∧
     (NV.Gen.ProxyCFG.allWrites.all fun e => NV.CFG.check e.2.2.2.2 e.2.1 e.2.2.1 e.2.2.2.1) = true := by
   decide
+
+
+/-! ### no index-out-of-range panic inside internal/dnsmessage -/
+
+/-- **C02 (regenerated)**: the index and slice expressions on the message buffer in the dnsmessage
+functions a client byte reaches, each with the length test that precedes it and the assignments
+made in between, are the ones the checked twins of NV.Model.ParserChecked were written from. A
+removed or weakened guard, a new unguarded access, an index moved in front of its guard change
+this table. -/
+theorem gen_msg_guards_agree :
+    NV.Gen.MsgBounds.accesses = [
+      ("unpackUint16", "msg[off]", "off+uint16Len > len(msg)", ""),
+      ("unpackUint16", "msg[off+1]", "off+uint16Len > len(msg)", ""),
+      ("unpackUint32", "msg[off]", "off+uint32Len > len(msg)", ""),
+      ("unpackUint32", "msg[off+1]", "off+uint32Len > len(msg)", ""),
+      ("unpackUint32", "msg[off+2]", "off+uint32Len > len(msg)", ""),
+      ("unpackUint32", "msg[off+3]", "off+uint32Len > len(msg)", ""),
+      ("unpackCompressed", "msg[currOff]", "currOff >= len(msg)", ""),
+      ("unpackCompressed", "msg[currOff:endOff]", "endOff > len(msg)", ""),
+      ("unpackCompressed", "msg[currOff]", "currOff >= len(msg)", ""),
+      ("skipName", "msg[newOff]", "newOff >= len(msg)", ""),
+      ("unpackOPTResource", "msg[off:]", "-", "")] := by decide
+
+/-- **C02 (no panic, every byte string)**: with exactly those guards, no index or slice expression
+of `unpackUint16` / `unpackUint32` reads outside the message, whatever the message and offset:
+the checked twin (every access an `Option`, `none` = runtime panic) returns `some` of the total
+model. -/
+theorem unpackUint_no_oob (msg : Bytes) (off : Nat) :
+    unpackU16? msg off = some (unpackU16 msg off) ∧ unpackU32? msg off = some (unpackU32 msg off) :=
+  ⟨unpackU16?_eq msg off, unpackU32?_eq msg off⟩
+
+/-- … nor does `Name.unpackCompressed`, for every message, start offset, pointer chain and label
+layout (compression pointers may point anywhere, also past the end or at themselves) -/
+theorem unpackName_no_oob (msg : Bytes) (off : Nat) :
+    unpackNameLoop? msg off off 0 [] = some (unpackName msg off) :=
+  unpackNameLoop?_eq msg off off 0 []
+
+/-- … nor `skipName` -/
+theorem skipName_no_oob (msg : Bytes) (off : Nat) : skipNameLoop? msg off = some (skipNameLoop msg off) :=
+  skipNameLoop?_eq msg off
+
+/-- … nor `unpackOPTResource`, whose `msg[off:]` has no guard of its own: the two successful
+`unpackUint16` before it leave `off ≤ len(msg)`, for every RDLENGTH the header may claim -/
+theorem unpackOPT_no_oob (msg : Bytes) (off endOff : Nat) :
+    unpackOptsLoop? msg off endOff [] = some (unpackOptsLoop msg off endOff []) :=
+  unpackOptsLoop?_eq msg off endOff []
+
+/-- the twins are not vacuous: they DO report the panic a missing guard would cause -/
+example : byteAt? [1, 2, 3] 3 = none ∧ sliceTo? [1, 2, 3] 2 5 = none ∧ sliceFrom? [1, 2, 3] 4 = none := by decide
 
 end NV.C02
